@@ -61,9 +61,12 @@ def compare_table(vec: Dict[str, Any], obs: Dict[str, Any]) -> Outcome:
             oc.mismatches.append("%s: DataFrameSchema.validate(lazy=%s) %s, specification %s" % (who, mode == "lazy", obs.get(mode), w))
         elif w == "ok" and not obs.get(mode + "_same", True):
             oc.mismatches.append("%s: validate returned a changed frame" % who)
+    if obs.get("check_error"):
+        oc.mismatches.append("%s with index labelling %s: the failed check is reported as an ERROR of the check function (%s) "
+                             "although the function does not raise" % (who, vec.get("ix"), obs.get("check_error_msg")))
     if vec["warn"] and (obs.get("warned", 0) > 0) != (not exp["passed"]):
         oc.mismatches.append("%s: warned=%s, specification: warn exactly when the check fails (%s)" % (who, obs.get("warned"), not exp["passed"]))
-    oc.sig = "table|%s|%s|%s|%s|%s|%d" % (vec["pred"], vec["ina"], vec["nfc"], vec["warn"], exp["passed"], len(vec["x"]))
+    oc.sig = "table|%s|%s|%s|%s|%s|%d|%s" % (vec["pred"], vec["ina"], vec["nfc"], vec["warn"], exp["passed"], len(vec["x"]), vec.get("ix"))
     return oc
 
 
